@@ -33,11 +33,13 @@ func vfObserve(label string, v any)
 func vfChoice(name string, n int) int
 func vfInt(name string, lo, hi int64) int64
 func vfBool(name string) bool
+func vfString(name string, minLen, maxLen int, class string) string
 func vfKnown(class string, cond bool)
 func vfCatch(f func()) (panicked, runtimeErr bool, msg string)
 func vfTerminates(f func()) bool
 func vfStop()
 func vfAssertTerminates(f func(), clause string)
+func vfDeepEqual(a, b any) bool
 func vfAnd(a, b bool) bool
 func vfOr(a, b bool) bool
 func vfNot(a bool) bool
